@@ -222,3 +222,40 @@ func ZZBindTable(n *Net) []string {
 	}
 	return out
 }
+
+// ZZNewNATRouter builds root <- lan(NAPT, external address mapped[0]) with real routers and returns the LAN
+// router together with its translator.  The LAN router accepts pushes without a forwarding loop, so that what
+// it queued for forwarding can be inspected.
+func ZZNewNATRouter(t NATType, mapped string) (*Router, *ZZNAT, error) {
+	lf := logging.NewDefaultLoggerFactory()
+	root, err := NewRouter(&RouterConfig{CIDR: "1.2.3.0/24", LoggerFactory: lf})
+	if err != nil {
+		return nil, nil, err
+	}
+	tt := t
+	lan, err := NewRouter(&RouterConfig{CIDR: "10.0.0.0/8", StaticIPs: []string{mapped}, NATType: &tt, LoggerFactory: lf})
+	if err != nil {
+		return nil, nil, err
+	}
+	if err := root.AddRouter(lan); err != nil {
+		return nil, nil, err
+	}
+	lan.stopFunc = func() {}
+	return lan, &ZZNAT{N: lan.nat}, nil
+}
+
+// ZZRouterInbound hands the LAN router a chunk as its parent would (Router.onInboundChunk) and reports what it
+// queued for forwarding into the LAN, if anything.
+func ZZRouterInbound(r *Router, src, dst string, payload []byte) (nsrc, ndst string, data []byte, err error) {
+	for {
+		if _, ok := r.queue.pop(); !ok {
+			break
+		}
+	}
+	r.onInboundChunk(ZZUDPChunk(src, dst, payload))
+	c, ok := r.queue.pop()
+	if !ok {
+		return "", "", nil, errNoNATBindingFound
+	}
+	return c.SourceAddr().String(), c.DestinationAddr().String(), c.UserData(), nil
+}
